@@ -17,7 +17,10 @@ META = {
                  "and through dawn.Load on the caches those runs filled, intact and damaged; of the gate LoadConfigBytes applies "
                  "to requirement versions and of cmpVersion on the version STRINGS (Mvs/Gate.v: x/mod semver parse, Canonical, "
                  "Compare) + correspondence on a family of version spellings and on universes that demand one project at two "
-                 "versions of equal precedence under both declaration orders",
+                 "versions of equal precedence under both declaration orders; of the normalisation LoadConfigBytes applies to "
+                 "requirement PATHS (Mvs/Paths.v: path.Clean, SplitPathVersion, JoinPathVersion, CleanPath) + correspondence on "
+                 "a family of path spellings and on universes whose requirements are all written in drawn spellings, one "
+                 "project under two of them at two versions, in five cache / order states",
     "level_text": "Theorems (Coq, unbounded): for every processing order of the work list, every finite universe (cycles, "
                   "diamonds, several majors) and every root requirement list, the model's build list is exactly the set of "
                   "reachable paths, each once, at the maximum version over the reachable requirements, sorted by path "
@@ -40,7 +43,12 @@ META = {
                   "configuration gate admits are of equal precedence (admitted_versions_never_tie; admitted_version_spelling), "
                   "while valid strings it rejects are, and Reqs.Max then answers with its first argument "
                   "(unadmitted_versions_tie); a project directory with a dawn.toml is configured by it whatever else it holds "
-                  "(config_file_precedence, config_file_fallback). The model is tied to "
+                  "(config_file_precedence, config_file_fallback). On the requirement paths as written: a path with a major "
+                  "suffix loads as JoinPathVersion(path.Clean(path), major) (written_path_loads_as), so the redundant suffixes "
+                  "'@', '@v0', '@v1' and every slash spelling path.Clean identifies load as ONE string (redundant_major_is_folded), "
+                  "the string the repository lists loads as itself (listed_path_is_fixed), the build list of configuration files "
+                  "as written is the MVS solution of the loaded graph (written_build_list_spec) and does not depend on the "
+                  "spellings (build_list_spelling_independent). The model is tied to "
                   "get.go/reqs.go/resolver.go and the library by running both on generated universes "
                   "(cold cache, warm resolver, warm disk cache, shared cache, shuffled declaration order) and, for the cache "
                   "model, on multi-repository layouts with every delivery point of a download failing once or parked while a "
@@ -56,14 +64,24 @@ META = {
                   "through WriteConfigFile/LoadConfigFile vs Mvs/Gate.v, ~1200 cmpVersion pairs vs the model, and 30/300 "
                   "universes in which two tags of equal precedence (build metadata, short forms) of one project are demanded "
                   "by the root / one project / two projects, built under both declaration orders x 3 fresh runs: all "
-                  "answers must be the same and a list must select a highest demanded version.",
+                  "answers must be the same and a list must select a highest demanded version. Path spellings: ~410 written "
+                  "paths (the listed form of 11 project paths x 15 slash spellings x the suffix spellings, ~55 strings that are "
+                  "nobody's spelling) through WriteConfigFile/LoadConfigFile and CleanPath vs Mvs/Paths.v, each derivation "
+                  "must load as the path it was derived from; 100/1000 universes in which two thirds of all requirements are "
+                  "written in a drawn spelling and one project is demanded at two versions under two spellings (root / root "
+                  "and a project / two projects), root through the configuration writer and loader, BuildList with a cold "
+                  "cache, the same resolver again, a fresh resolver on that cache, a fresh resolver on the cache a plainly "
+                  "written build of the same graph filled, and shuffled requirement lists: every answer must be the "
+                  "reference of the plainly written universe; the written universe and its cold answer also go to the model.",
     "level_note": "Trusted: Coq kernel; the python rendering of version strings into canonical semver records; the "
                   "model of par.Work as an arbitrary sequential pick order (g.Require runs under the library's mutex); the cache "
                   "theorems assume os.Rename of a directory is atomic, that a complete download holds the project's configuration "
                   "(deliver_sound) and that two requested project versions sharing a cache directory resolve alike (key_sound: "
                   "fails for a requirement path without the major suffix of its version, the recorded observation of DESIGN 5; "
                   "such paths are not generated); the lookup theorems assume that the set of addresses that answer a dial is stable over the "
-                  "life of a resolver and that project paths are clean (LoadConfigBytes applies CleanPath); the project-load "
+                  "life of a resolver and that project paths are clean (LoadConfigBytes applies CleanPath: modelled in Mvs/Paths.v and "
+                  "checked on path spellings; that CleanPath's results are fixed points of path.Clean is not proved, the graph "
+                  "compares the loaded strings); the project-load "
                   "family cannot inject a dialer into dawn.Load (the Dialer interface is sealed), so its repositories are "
                   "either fully cached or unreachable; a copy-instead-of-rename publication could only be seen by parking inside the "
                   "resolver's own copy, which the harness cannot do. "
@@ -564,7 +582,10 @@ def paths_family(ctx, precs):
                 "answer are evaluated by the model",
     }
     seen = set()
-    for f in [r for r in precs if r["t"] == "ORACLE"]:
+    # of the universes that fail, the smallest one first (fewest tags, then fewest root requirements)
+    size = lambda f: (len(f["input"]["universe_as_written"]["tags"]), len(f["input"]["root_requirements_as_written"])) \
+        if "universe_as_written" in f.get("input", {}) else (0, 0)
+    for f in sorted([r for r in precs if r["t"] == "ORACLE"], key=size):
         if f["name"] in seen:
             continue
         seen.add(f["name"])
@@ -723,7 +744,7 @@ def run(ctx):
            "VERIF_OUT_CACHE": outc, "VERIF_NUNIV_CACHE": str(ncache), "VERIF_NROOTS_CACHE": "2",
            "VERIF_CACHE_TARGETS": "3",
            "VERIF_OUT_SPELL": os.path.join(ctx.tmp, "c10spell.jsonl"), "VERIF_NUNIV_SPELL": str(30 if ctx.quick() else 300),
-           "VERIF_OUT_PATHS": os.path.join(ctx.tmp, "c10paths.jsonl"), "VERIF_NUNIV_PATHS": str(60 if ctx.quick() else 600)}
+           "VERIF_OUT_PATHS": os.path.join(ctx.tmp, "c10paths.jsonl"), "VERIF_NUNIV_PATHS": str(100 if ctx.quick() else 1000)}
     # the cache-state family creates and removes ~10^5 small files: keep the temporary directory (the resolver's
     # staging areas and the cache directories alike, so renames stay on one file system) in memory when possible
     shm = None
